@@ -114,7 +114,19 @@ def main(argv=None):
     except ValueError:
         seed = 0
     t0 = time.time()
-    workdir = os.path.join(VERIF, 'work', pid + ('.' + TAG if TAG else ''))
+    # one work directory per run (two runs of one property may be going on at the same time: another tree, another
+    # session); leftovers of runs that ended badly more than two hours ago are swept here
+    wroot = os.path.join(VERIF, 'work')
+    os.makedirs(wroot, exist_ok=True)
+    for name in os.listdir(wroot):
+        if name.startswith(pid + '.') and '.p' in name:
+            full = os.path.join(wroot, name)
+            try:
+                if time.time() - os.path.getmtime(full) > 7200:
+                    shutil.rmtree(full, ignore_errors=True)
+            except OSError:
+                pass
+    workdir = os.path.join(wroot, pid + ('.' + TAG if TAG else '') + '.p%d' % os.getpid())
     shutil.rmtree(workdir, ignore_errors=True)
     os.makedirs(workdir, exist_ok=True)
     os.environ['VT_WORK'] = workdir
